@@ -455,6 +455,8 @@ class CallMixin(object):
     st.frames[fid]['result'] = res
     if isinstance(res, V) and res.ty.k != 'none':
       st.choices.append((ex.name, res))
+      if cx.chain and cx.chain[0] in st.frames:
+        st.frames[cx.chain[0]]['_last_result'] = res    # visible to ghost statements only
     self.old_stack.append((snap, dict(params)))
     try:
       for e in ex.ensures:
@@ -663,6 +665,8 @@ class CallMixin(object):
       return V(BOOL, z3.And(args[0].t > snap.get('$alloc', st.alloc), args[0].t <= st.alloc))
     if name == 'dyn_is':
       return V(BOOL, self.isinstance_(st, args[0], args[1]))
+    if name == 'setof':
+      return self.as_lset(st, args[0])
     if name == 'card':
       return V(INT, self.container_len(st, args[0]))
     if name == 'floor_div':
